@@ -30,6 +30,14 @@ type FailRec struct {
 	Sample   any                 `json:"case,omitempty"`
 	Trace    []string            `json:"trace,omitempty"`
 	Shrunk   *ShrinkInfo         `json:"shrink,omitempty"`
+	// ProcStart/ProcStep: the worker process that found the failure had executed
+	// run indices ProcStart, ProcStart+ProcStep, ... before Index.
+	ProcStart int `json:"found_in_process_started_at_run"`
+	ProcStep  int `json:"found_in_process_run_step"`
+	// ProcessHistory, if not empty, lists the run indices (same seed, search
+	// mode) that must be executed in the same process before the tape for the
+	// failure to appear: the code under test keeps state across runs.
+	ProcessHistory []int `json:"process_history,omitempty"`
 }
 
 // ShrinkInfo describes the minimisation.
@@ -148,7 +156,7 @@ func SearchFrom(prop, tier string, seed uint64, worker, workers int, budget time
 				s.Known[key]++
 				continue
 			}
-			s.Fail = &FailRec{Property: prop, Tier: tier, Seed: seed, Index: idx, RunSeed: rs, Tape: tape.Used(), Clause: res.Fail.Clause, Key: res.Fail.Key, Detail: res.Fail.Detail, Hash: res.Hash, Sample: res.Sample}
+			s.Fail = &FailRec{Property: prop, Tier: tier, Seed: seed, Index: idx, RunSeed: rs, Tape: tape.Used(), Clause: res.Fail.Clause, Key: res.Fail.Key, Detail: res.Fail.Detail, Hash: res.Hash, Sample: res.Sample, ProcStart: startIdx, ProcStep: workers}
 			break
 		}
 	}
@@ -192,6 +200,9 @@ func Replay(rec *FailRec, trace bool) *core.Result {
 		os.Exit(2)
 	}
 	w := f(rec.Tier)
+	for _, idx := range rec.ProcessHistory {
+		w.Run(rt.NewTape(RunSeed(rec.Seed, rec.Property, idx)), false)
+	}
 	return w.Run(rt.NewReplayTape(rec.RunSeed, rec.Tape), trace)
 }
 
